@@ -7,7 +7,6 @@ package common
 // production when somebody turns the verbosity up.
 
 import (
-	"github.com/go-logr/logr"
 	"k8s.io/apimachinery/pkg/apis/meta/v1/unstructured"
 
 	"metacontroller/pkg/apis/metacontroller/v1alpha1"
@@ -15,25 +14,16 @@ import (
 	"metacontroller/pkg/logging"
 	"metacontroller/pkg/zzverif/env"
 	"metacontroller/pkg/zzverif/gen"
+	"metacontroller/pkg/zzverif/logsink"
 	rt "metacontroller/pkg/zzverif/rt"
 )
-
-// verifVerboseSink is a log sink with every verbosity enabled that drops the lines.
-type verifVerboseSink struct{}
-
-func (verifVerboseSink) Init(info logr.RuntimeInfo)                                {}
-func (verifVerboseSink) Enabled(level int) bool                                    { return true }
-func (verifVerboseSink) Info(level int, msg string, keysAndValues ...interface{})  {}
-func (verifVerboseSink) Error(err error, msg string, keysAndValues ...interface{}) {}
-func (s verifVerboseSink) WithValues(keysAndValues ...interface{}) logr.LogSink    { return s }
-func (s verifVerboseSink) WithName(name string) logr.LogSink                       { return s }
 
 func VerifC17_VerboseDiffPurity() {
 	saved := logging.Logger
 	defer func() { logging.Logger = saved }()
 	if rt.Bool("log-verbosity-5") {
 		rt.Cover("verbose")
-		logging.Logger = logr.New(verifVerboseSink{})
+		logging.Logger = logsink.Verbose()
 	}
 	w := env.NewWorld()
 	parent := env.Thing("ns", "p", "puid")
